@@ -324,10 +324,10 @@ pub fn gen(seed: u64, tier: &str) -> Vec<Value> {
 }
 
 // ---------------------------------------------------------------- hostile inputs (C07)
-fn frame(flag: u8, payload: &[u8]) -> Vec<u8> {
+pub fn frame(flag: u8, payload: &[u8]) -> Vec<u8> {
     let mut v = vec![flag]; v.extend_from_slice(&(payload.len() as u32).to_be_bytes()); v.extend_from_slice(payload); v
 }
-fn compress_with(enc: &str, data: &[u8]) -> Vec<u8> {
+pub fn compress_with(enc: &str, data: &[u8]) -> Vec<u8> {
     use std::io::Write;
     match enc {
         "gzip" => { let mut e = flate2::write::GzEncoder::new(vec![], flate2::Compression::new(6)); e.write_all(data).unwrap(); e.finish().unwrap() }
